@@ -174,3 +174,13 @@ Theorem C10_zernike_fit_residual :
 Proof. exact zernike_fit_residual. Qed.
 Print Assumptions C10_zernike_fit_residual.
 
+Theorem C10_zernike_fit_recovers_pts :
+  forall (fam : nat) (pts : list (R * R)) (N : nat) (c0 chat z : list R),
+       (N <= Datatypes.length pts)%nat ->
+       injective_design (family_term fam) (family_indices fam) pts N ->
+       Datatypes.length c0 = N ->
+       z = design (family_term fam) (family_indices fam) pts c0 ->
+       lstsq_min (family_term fam) (family_indices fam) pts N chat z ->
+       Datatypes.length chat = N /\ chat = c0.
+Proof. exact zernike_fit_recovers_pts. Qed.
+Print Assumptions C10_zernike_fit_recovers_pts.
